@@ -212,26 +212,34 @@ def gen_program(seed: int, size: int):
 ALT_PY = "/root/.pyenv/versions/3.11.7/bin/python"
 
 
-def alt_descs(tier, seed, which):
-    """the same kinds of cases computed under CPython 3.11 (child process: abstract code, certificate
-    and what the real stackscope functions return there); checked in Coq with ver = V311"""
-    import json
+def alt_start(tier, seed, which):
+    """start the CPython 3.11 child (abstract code, certificates and what the real stackscope functions
+    return there; checked in Coq with ver = V311); it runs while this process does its own cases"""
     import subprocess
     if not os.path.exists(ALT_PY):
+        return None
+    env = dict(os.environ, PYTHONHASHSEED="0")
+    return subprocess.Popen([ALT_PY, "-m", "harness.wm_alt_child", tier, str(seed), which], stdout=subprocess.PIPE,
+                            stderr=subprocess.PIPE, text=True, env=env,
+                            cwd=os.path.dirname(os.path.dirname(os.path.abspath(__file__))))
+
+
+def alt_collect(proc, tier, which):
+    import json
+    import subprocess
+    if proc is None:
         return
-    env = dict(os.environ, PYTHONPATH=os.environ.get("PYTHONPATH", ""), PYTHONHASHSEED="0")
     try:
-        p = subprocess.run([ALT_PY, "-m", "harness.wm_alt_child", tier, str(seed), which], stdout=subprocess.PIPE,
-                           stderr=subprocess.PIPE, text=True, timeout=1500 if tier == "quick" else 5000, env=env,
-                           cwd=os.path.dirname(os.path.dirname(os.path.abspath(__file__))))
+        out, err = proc.communicate(timeout=1500 if tier == "quick" else 5000)
     except subprocess.TimeoutExpired:
+        proc.kill()
         yield {"_kind": "cert", "which": which, "ver": "V311", "src": "alt-error", "pre": {"obs": {"machine_error": "3.11 child timed out"}}}
         return
-    if p.returncode != 0:
+    if proc.returncode != 0:
         yield {"_kind": "cert", "which": which, "ver": "V311", "src": "alt-error",
-               "pre": {"obs": {"machine_error": "3.11 child failed: " + p.stderr[-800:]}}}
+               "pre": {"obs": {"machine_error": "3.11 child failed: " + err[-800:]}}}
         return
-    for line in p.stdout.splitlines():
+    for line in out.splitlines():
         if line.startswith("{"):
             yield json.loads(line)
 
@@ -253,15 +261,18 @@ def make_descs(tier, seed, which, alt=False):
         descs.append({"src": "gen", "seed": -(k + 1), "size": 0})
     for k in range(ngen):
         descs.append({"src": "gen", "seed": seed * 1000003 + k, "size": 4 + (k % 9)})
+    proc = None
     if not alt:
+        proc = alt_start(tier, seed, which)
         yield {"_kind": "live", "which": which, "tier": tier, "seed": seed}
-        yield from alt_descs(tier, seed, which)
     for d in descs:
         yield dict(d, _kind="cert", which=which)
         yield dict(d, _kind="static", which=which)
         yield dict(d, _kind="join", which=which)
         if which == "susp":
             yield dict(d, _kind="table", which=which)
+    if not alt:
+        yield from alt_collect(proc, tier, which)
 
 
 _CACHE = {}
@@ -396,10 +407,11 @@ def _src_of(co, st):
         return None
 
 
-def live_terms():
-    """one Coq case per observed code object; a truth site that a `finally` duplicated into several
-    BEFORE_WITH units is resolved to the unit the certificate has in its truth at that position"""
-    terms = []
+def live_data():
+    """one entry per observed code object: (units, table, cert, [(running, lasti, [(site unit, async, phase)])]);
+    a truth site that a `finally` duplicated into several BEFORE_WITH units is resolved to the unit the
+    certificate has in its truth near that position"""
+    out = []
     for g in _LIVE.get("groups", {}).values():
         co = g["co"]
         try:
@@ -416,11 +428,25 @@ def live_terms():
             tr = []
             for us, a, ph in o["truth"]:
                 u = next((x for x in us if x in cands), us[0])
-                tr.append("{| t_site := %d; t_inst := tt; t_async := %s; t_phase := %s |}" % (
-                    u, cbool(a), {"entering": "Entering", "active": "Active", "exiting": "Exiting"}[ph]))
-            obs.append("(%s, %d, %s)" % (cbool(o["running"]), o["lasti"], clist(tr)))
+                tr.append([u, bool(a), ph])
+            obs.append([bool(o["running"]), o["lasti"], tr])
         if obs:
-            terms.append("(%s,\n %s,\n %s,\n %s)" % (W.code_coq(units), W.table_coq(table), W.cert_coq(cert), clist(obs)))
+            out.append({"units": units, "table": table, "cert": cert, "obs": obs})
+    return out
+
+
+def live_terms(data):
+    terms = []
+    for e in data:
+        cert = [None if c is None else (tuple(tuple(v) if isinstance(v, list) else v for v in c[0]),
+                                        tuple(tuple(x) for x in c[1])) for c in e["cert"]]
+        obs = []
+        for running, lasti, tr in e["obs"]:
+            trs = clist(["{| t_site := %d; t_inst := tt; t_async := %s; t_phase := %s |}" % (
+                u, cbool(a), {"entering": "Entering", "active": "Active", "exiting": "Exiting"}[ph]) for u, a, ph in tr])
+            obs.append("(%s, %d, %s)" % (cbool(running), lasti, trs))
+        terms.append("(%s,\n %s,\n %s,\n %s)" % (W.code_coq([tuple(u) for u in e["units"]]),
+                                                  W.table_coq([tuple(t) for t in e["table"]]), W.cert_coq(cert), clist(obs)))
     return terms
 
 
@@ -600,7 +626,8 @@ def join_coq(units, table, obs, ver="V312"):
 
 def coq_case(desc, obs):
     if desc["_kind"] == "live":
-        return live_terms() or None
+        data = desc["pre"]["live"] if "pre" in desc else live_data()
+        return live_terms(data) or None
     if desc["_kind"] == "table":
         return "(%s,\n %s)" % (clist(["%d%%N" % b for b in obs["bytes"]]),
                               W.table_coq([tuple(x) for x in obs["parsed"]]))
@@ -650,7 +677,8 @@ def direct_oracle(desc, obs):
 
 def classify(desc, obs):
     if desc["_kind"] == "live":
-        return ["live:states=%s" % obs.get("states"), "live:unmapped=%s" % obs.get("unmapped_states")]
+        tag = ":py3.11" if desc.get("ver") == "V311" else ""
+        return ["live%s:states=%s" % (tag, obs.get("states")), "live%s:unmapped=%s" % (tag, obs.get("unmapped_states"))]
     labs = [desc["src"] + ":" + desc["_kind"] + (":py3.11" if desc.get("ver") == "V311" else "")]
     if "units" in obs:
         labs.append("units<%d" % (50 if obs["units"] < 50 else 200 if obs["units"] < 200 else 1000 if obs["units"] < 1000 else 100000))
